@@ -20,16 +20,17 @@ type RunSpec struct {
 }
 
 type PropSpec struct {
-	Title       string    `json:"title"`
-	Runs        []RunSpec `json:"runs"`
-	StringTrack []string  `json:"string_track"` // names of string-track jobs (regl)
-	Bounded     []string  `json:"bounded"`      // names of bounded stand-ins
-	Trusted     []string  `json:"trusted_base"`
-	Assumptions []string  `json:"assumptions"`
-	NotDecided  []string  `json:"not_decided"`
-	Timeout     int       `json:"timeout"`
-	MinObls     int       `json:"min_obligations"` // vacuity guard: fewer obligations than this is an error
-	Replay      string    `json:"replay"`          // name of the replay oracle (replay/<name>)
+	Title                   string    `json:"title"`
+	Runs                    []RunSpec `json:"runs"`
+	StringTrack             []string  `json:"string_track"` // names of string-track jobs (regl)
+	Bounded                 []string  `json:"bounded"`      // names of bounded stand-ins
+	Trusted                 []string  `json:"trusted_base"`
+	Assumptions             []string  `json:"assumptions"`
+	NotDecided              []string  `json:"not_decided"`
+	Timeout                 int       `json:"timeout"`
+	MinObls                 int       `json:"min_obligations"` // vacuity guard: fewer obligations than this is an error
+	Replay                  string    `json:"replay"`          // name of the replay oracle (replay/<name>)
+	ImplicitModifiesNothing bool      `json:"implicit_modifies_nothing"`
 }
 
 type KnownFinding struct {
@@ -68,6 +69,14 @@ func (k KnownFile) match(prop, obl string) *KnownFinding {
 
 func matchFn(pats []string, key string) bool {
 	for _, p := range pats {
+		if strings.HasPrefix(p, "!") && matchFn([]string{p[1:]}, key) {
+			return false
+		}
+	}
+	for _, p := range pats {
+		if strings.HasPrefix(p, "!") {
+			continue
+		}
 		if p == "*" || p == key {
 			return true
 		}
@@ -126,6 +135,7 @@ func runCheck(args []string, repo, specs, tier string, jobs int, verbose bool) i
 			return 2
 		}
 		w.computeWrites()
+		w.implicitNothing = ps.ImplicitModifiesNothing
 		for _, run := range ps.Runs {
 			pass := Pass{Prop: prop, Beh: run.Beh}
 			matched := 0
